@@ -255,7 +255,7 @@ pub fn targeted_inputs() -> Vec<(String, &'static str)> {
             out.push((f.replace("{}", b), "targeted:blank-where-forbidden"));
         }
     }
-    let strings = ["'a", "a'", "\"a", "'a\"", "\"a'", "'\\x'", "'\\'", "'\\u12'", "'\\u123'", "'\\uD800'", "'\\uDC00'", "'\\uDC00\\uD800'", "'\\uD800\\u0041'", "'\\uD800x'", "'\\U0041'",
+    let strings = ["'a", "a'", "\"a", "'a\"", "\"a'", "'\\x'", "'\\'", "'\\u12'", "'\\u123'", "'\\uD800'", "'\\uDC00'", "'\\uDC00\\uD800'", "'\\uD800\\u0041'", "'\\uD800x'", "'\\U0041'", "'\\u00\u{ff14}1'", "'\\u\u{ff21}041'", "'\\uD83D\\uDE0\u{ff10}'",
         "'\\\"'", "\"\\'\"", "'\u{1}'", "'\t'", "'a\nb'", "\"\r\"", "'\u{1f}'", "'\\a'", "'\\0'", "'\\ n'", "'\\u 0041'", "'\\u00 41'", "'''", "\"\"\""];
     let string_frames = ["$[{}]", "$[?@.a=={}]", "$[?@[{}]==1]", "$[?match(@.a,{})]", "$..[{}]", "$[0,{}]", "$[?length({})==1]"];
     for f in string_frames {
